@@ -58,3 +58,18 @@ Theorem C09_sync_taken_is_a_prefix : forall s, sreach s -> ifail (base s) = None
   concat (submitted (base s)) ++ concat (ready (base s)) = seq 0 (taken (base s)) /\ taken (base s) <= N (base s).
 Proof. exact sync_partition. Qed.
 Print Assumptions C09_sync_taken_is_a_prefix.
+
+(* ---- the sequential path (n_jobs resolves to 1): Model/ParallelSeq.v, proofs in Proofs/SeqThm.v *)
+Require Import JV.Model.ParallelSeq JV.Proofs.SeqThm.
+
+(* the input is consumed at most one batch ahead of what was handed to the consumer, never beyond its end *)
+Theorem C09_seq_path_lazy_consumption : forall s, qreach s ->
+  qtaken s <= length (qdelivered s) + qbs (qc s) /\ qtaken s <= qN (qc s) /\ length (qdelivered s) <= qtaken s.
+Proof. exact seq_lazy_consumption. Qed.
+Print Assumptions C09_seq_path_lazy_consumption.
+
+(* once the generator has finished (end, failure, close) nothing is consumed any more *)
+Theorem C09_seq_path_finished_generator_is_inert : forall s, qalive s = false ->
+  fst (qstep s QNext) = s /\ fst (qstep s QClose) = s.
+Proof. exact seq_finished_generator_is_inert. Qed.
+Print Assumptions C09_seq_path_finished_generator_is_inert.
